@@ -92,6 +92,10 @@ type Runtime struct {
 	// per goroutine-less call state: the command loop is sequential; the concurrent mode keys states by a request header
 	states map[string]*callState
 	routes [][2]string
+	// extension points of the gRPC part (grpc.go, build tag grpcglue)
+	grpc     any
+	starters []func()
+	extraOps []func(c *command, obs *observation, id string) bool
 }
 
 // New parses the embedded design.
@@ -337,7 +341,13 @@ func (m *recordingMux) Handle(method, pattern string, handler http.HandlerFunc) 
 // Start mounts every registered service on one muxer and creates the clients.
 func (rt *Runtime) Start() {
 	rt.mux = &recordingMux{ResolverMuxer: goahttp.NewMuxer(), rt: rt}
+	for _, f := range rt.starters {
+		f()
+	}
 	for _, s := range rt.services {
+		if s.NewServer == nil {
+			continue // not an HTTP service
+		}
 		eps := reflect.ValueOf(s.NewEndpoints).Call([]reflect.Value{reflect.ValueOf(s.Stub)})[0]
 		dec := reflect.ValueOf(goahttp.RequestDecoder)
 		enc := reflect.ValueOf(goahttp.ResponseEncoder)
@@ -393,6 +403,7 @@ type observation struct {
 	Auth          []authCall  `json:"auth,omitempty"`
 	WriteHeaders  int         `json:"write_headers"`
 	Wire          *wire       `json:"wire,omitempty"`
+	GRPC          any         `json:"grpc,omitempty"`
 	Panic         string      `json:"panic,omitempty"`
 	Routes        [][2]string `json:"routes,omitempty"`
 	Harness       string      `json:"harness_error,omitempty"`
@@ -526,7 +537,16 @@ func (rt *Runtime) exec(c *command) (obs observation) {
 			obs.ClientResult = rt.ToJSON(m.Result, rv)
 		}
 	default:
-		obs.Harness = "unknown op " + c.Op
+		handled := false
+		for _, f := range rt.extraOps {
+			if f(c, &obs, id) {
+				handled = true
+				break
+			}
+		}
+		if !handled {
+			obs.Harness = "unknown op " + c.Op
+		}
 	}
 	rt.mu.Lock()
 	obs.ServerCalled, obs.ServerPayload, obs.Auth, obs.WriteHeaders = st.serverCalled, st.serverPayload, st.auth, st.writeHeaders
